@@ -220,7 +220,34 @@ pub fn run_c05(ctx: &RunCtx) -> Outcome {
         t
     };
     stage_random(ctx, &mut o, &p, "random unrestricted", &RandCfg::wild(), &rtexts, cases, &|_| true);
+    if !ctx.quick() && o.violations.is_empty() {
+        fuzz_stage(ctx, &mut o, &p, "fuzz_search", crate::fuzzdec::run_search);
+    }
     o
+}
+
+/// coverage-guided campaign of a byte-decoded target; artifacts are re-checked in-process and shrunk
+pub fn fuzz_stage<P: PatProp>(ctx: &RunCtx, o: &mut Outcome, p: &P, target: &str, recheck: fn(&[u8]) -> Option<Found>) {
+    let seeds = crate::fuzzrun::byte_seeds(ctx, 64, 48);
+    match crate::fuzzrun::campaign(ctx, target, 16, 40_000, 96, &seeds) {
+        Ok(c) => {
+            o.stats.evaluations += c.runs_done;
+            o.extra.insert("fuzz".into(), c.evidence);
+            for a in c.artifacts {
+                let data = std::fs::read(&a).unwrap_or_default();
+                match recheck(&data) {
+                    Some(found) => {
+                        o.violations.push(finish(ctx, p, found));
+                        return;
+                    }
+                    None => {
+                        o.infra_error = Some(format!("libFuzzer artifact {} is not reproduced by the in-process oracle (harness trouble or sanitizer-only report): inconclusive", a.display()));
+                    }
+                }
+            }
+        }
+        Err(e) => o.infra_error = Some(e),
+    }
 }
 
 // ---------------------------------------------------------------------------------------------
